@@ -16,13 +16,14 @@ from dsim.seams import SimSolver, LogSeam, warm_up_solver
 ID = "C17"
 LEVEL = "exploration"
 RUN_WALL_WATCHDOG_S = 300.0
+LARGE_MAX_NODES = 3000      # real-solver work bound for the 101-130 item requests (a solve that stops there is not judged)
 
 TIERS = {
     "quick":    {"runs": 42000, "chunk": 12, "wall_cap_s": 80, "size": 0,
-                 "det_sample_min": 12, "det_sample_frac": 0.003, "max_reports": 3, "shrink_candidates": 150},
+                 "det_sample_min": 12, "det_sample_frac": 0.003, "max_reports": 3, "shrink_candidates": 150, "large_share": 0.004},
     "thorough": {"runs": 400000, "chunk": 24, "wall_cap_s": 1700, "size": 1,
                  "det_sample_min": 32, "det_sample_frac": 0.0005, "max_reports": 4, "shrink_candidates": 300,
-                 "fresh_interpreter_check": True, "fresh_sample": 32},
+                 "fresh_interpreter_check": True, "fresh_sample": 32, "large_share": 0.004},
 }
 
 RULE = ("One run = one seeded ILP request (1-6 integer items <= 200, 1-4 bins, copies as one number or per item in {0,1,2}, weights in "
@@ -202,6 +203,26 @@ def gen_plan(seed, tier):
             s["late"] = r.choice(["FEASIBLE", "NO_SOLUTION_FOUND"])
             plan["time_limit"] = r.choice([1, 4.999, 5.0, 10, 59, 61, 1000])
         plan["solver"] = s
+    # a small share of LARGE requests (101-130 items: three-digit item indices, many variables), on their own random
+    # stream so that every other plan stays what it was. The exhaustive reference is out of reach there; the oracle is
+    # the placement check plus 'a balanced sum vector is optimal for every objective' / subset-sum DP for two bins.
+    rl = core.rng(seed, "c17-large")
+    if rl.random() < cfg.get("large_share", 0):
+        n = rl.randint(101, 130)
+        k = 2       # CBC needs minutes for some 3-bin requests of this size, and its real clock is not ours to limit
+        lstyle = rl.choice(["small", "wide", "dupes"])
+        v0 = rl.randint(1, 200)
+        values = [rl.randint(1, 15) if lstyle == "small" else rl.randint(1, 200) if lstyle == "wide" else rl.choice([v0, v0, rl.randint(1, 200)])
+                  for _ in range(n)]
+        cm = rl.choice(["default", "default", "one", "two", "per_item", "per_item"])
+        copies = {"default": None, "one": 1, "two": 2}.get(cm)
+        if cm == "per_item":
+            copies = [rl.choice([0, 1, 1, 2]) for _ in range(n)]
+        plan.update(values=values, numbins=k, copies=copies, constraint=None, large=True,
+                    weights=rl.choice([None, None, [2] * k, [0.5] * k]),
+                    objective=rl.choice(["min", "max", "diff", "kmin:1", "kmax:%d" % k]))
+        if plan["form"] in ("dict", "names"):
+            plan["names"] = [f"n{j}" for j in range(n)]
     return plan
 
 
@@ -289,6 +310,8 @@ def _call(plan, solver_mode, weights="plan"):
         kw["additional_constraints"] = cf
     if plan["time_limit"] is not None:
         kw["time_limit"] = plan["time_limit"]
+    if plan.get("large"):
+        solver_mode = dict(solver_mode, max_nodes=LARGE_MAX_NODES)
     _solver.use(solver_mode)
     _solver.fired = {}
     try:
@@ -299,6 +322,11 @@ def _call(plan, solver_mode, weights="plan"):
         return ("exc", e)
     finally:
         _solver.use({"mode": "real"})
+
+
+def _real_solver_gave_up():
+    st = _solver.last_real_status
+    return st is not None and getattr(st, "name", str(st)) != "OPTIMAL"
 
 
 def _extract(plan, val):
@@ -347,6 +375,22 @@ def _reference(plan, cache):
         return cache["ref"]
     values, k = plan["values"], plan["numbins"]
     cl = _copies_list(dict(plan, copies=1 if plan["copies"] is None else plan["copies"]))
+    if plan.get("large"):
+        flat = [v for v, c in zip(values, cl) for _ in range(c)]
+        total = sum(flat)
+        ref = {"kind": "large", "feasible": True, "n": len(flat), "total": total, "optimum": None,
+               "balanced": sorted([total // k + (1 if i < total % k else 0) for i in range(k)])}
+        if k == 2:
+            bits = 1
+            for v in flat:
+                bits |= bits << v
+            half = total // 2
+            low = (bits & ((1 << (half + 1)) - 1)).bit_length() - 1
+            ref["optimum"] = refmodels.objective_value(plan["objective"], [low, total - low])
+        elif k == 1:
+            ref["optimum"] = refmodels.objective_value(plan["objective"], [total])
+        cache["ref"] = ref
+        return ref
     if _weights_kind(plan) == "non-uniform":
         # Everything in integers: weighted sum i = s_i / w_i is represented by s_i * (L / w_i), L = lcm of the weights.
         ordered = refmodels.reachable_ordered(values, cl, k)
@@ -438,7 +482,20 @@ def _judge(plan, outcome, cache):
         return out
     if any(sums[i] > sums[i + 1] for i in range(len(sums) - 1)):
         out.append(("not-ascending", {"sums": sums}))
-    if ref["kind"] == "plain":
+    if ref["kind"] == "large":
+        if not out:
+            if float(sum(sums)) != float(ref["total"]):
+                out.append(("copies", {"why": "reported sums do not add up to the requested copies", "sums": sums, "want_total": ref["total"]}))
+            else:
+                v = refmodels.objective_value(plan["objective"], sums)
+                bal = refmodels.objective_value(plan["objective"], ref["balanced"])
+                if ref["optimum"] is not None:
+                    if v != ref["optimum"]:
+                        out.append(("not-optimal", {"value": canon(v), "optimum": canon(ref["optimum"]), "sums": sums}))
+                elif v != bal:
+                    # more than two bins and not balanced: the optimum is not known to the oracle
+                    cache["large_unjudged"] = True
+    elif ref["kind"] == "plain":
         ssorted = sorted(sums)
         if lists is None and tuple(int(x) if float(x).is_integer() else x for x in ssorted) not in ref["vectors"]:
             out.append(("copies", {"why": "reported sums are not reachable with the requested copies", "sums": sums}))
@@ -530,6 +587,9 @@ def execute(plan, seed=0):
         if s["mode"] == "sim_timeout":
             res.probe("sim_timeout_not_reached_real_solve")
         v1 = _judge(plan, outcome, cache)
+        if plan.get("large") and outcome[0] == "exc" and _real_solver_gave_up():
+            res.note("large_request_real_solver_hit_its_node_limit_not_judged")
+            v1 = []
         if v1 and outcome[0] == "exc" and (plan.get("copies_form") not in (None, "list") or plan.get("weights_form") not in (None, "list")):
             # the options were spelled as a tuple / numpy array; the documented spelling is a list. Refusing another
             # spelling with an error is the library's right - a silently wrong answer is not. Judge the list spelling.
@@ -551,17 +611,29 @@ def execute(plan, seed=0):
             outcome2 = _call(plan, conservative)
             res.evaluations += 1
             v2 = _judge(plan, outcome2, cache)
+            gave_up = plan.get("large") and outcome2[0] == "exc" and _real_solver_gave_up()
             tr.add("recheck-preprocess-off", first=[c for c, _ in v1], second=[c for c, _ in v2], outcome=canon(outcome2[1]))
-            if v2:
+            if gave_up:
+                # the conservative re-solve of a large request stopped at its node limit: nobody can tell whose fault
+                # the first answer was
+                res.note("large_request_recheck_hit_its_node_limit_not_judged")
+                v2 = []
+            elif v2:
                 conservative = dict(conservative, cuts=0)
                 outcome2 = _call(plan, conservative)
                 res.evaluations += 1
                 v2b = _judge(plan, outcome2, cache)
+                if plan.get("large") and outcome2[0] == "exc" and _real_solver_gave_up():
+                    res.note("large_request_recheck_hit_its_node_limit_not_judged")
+                    gave_up = True
+                    v2b = []
                 tr.add("recheck-cuts-off", second=[c for c, _ in v2], third=[c for c, _ in v2b], outcome=canon(outcome2[1]))
-                if not v2b:
+                if not v2b and not gave_up:
                     res.note("solver_fault_natural_needs_cuts_off")
                 v2 = v2b
-            if not v2:
+            if gave_up:
+                pass
+            elif not v2:
                 res.note("solver_fault_natural")
                 res.note("solver_fault_natural:" + v1[0][0])
             else:
@@ -576,6 +648,10 @@ def execute(plan, seed=0):
                         res.violations = [v for v in res.violations if v["clause"] != "not-optimal"]
                         res.violate("uniform-weights-changed-value", weights=plan["weights"], with_weights=canon(outcome2[1]), without=canon(o3[1]))
         ref = _reference(plan, cache)
+        if ref["kind"] == "large":
+            res.probe("large_request_101_to_130_items")
+            if cache.get("large_unjudged"):
+                res.note("large_request_optimality_not_judged")
         if ref["kind"] == "weighted":
             if ref.get("ambiguous"):
                 res.note("weighted_constraint_too_close_to_a_reachable_sum_not_judged")
@@ -607,6 +683,19 @@ def shrink_candidates(plan, clause):
         p = dict(plan)
         p.update(kw)
         return p
+    if n > 16:
+        step = n // 2
+        while step >= 4:
+            for lo in range(0, n, step):
+                hi = min(n, lo + step)
+                if hi - lo < n:
+                    kw = {"values": vals[:lo] + vals[hi:]}
+                    if isinstance(plan["copies"], list):
+                        kw["copies"] = plan["copies"][:lo] + plan["copies"][hi:]
+                    if plan.get("names"):
+                        kw["names"] = plan["names"][:lo] + plan["names"][hi:]
+                    yield mk(**kw)
+            step //= 2
     if n > 1:
         for i in range(n):
             kw = {"values": vals[:i] + vals[i + 1:]}
